@@ -87,7 +87,8 @@ let note_edge name fname =
 let lenient_counts = ref false
 
 let line = ref 0
-let emit s = Printf.printf "@%d %s\n" !line s
+let mute = ref false
+let emit s = if not !mute then Printf.printf "@%d %s\n" !line s
 
 let split s = List.filter (fun t -> t <> "") (Stdlib.String.split_on_char ' ' (Stdlib.String.map (fun c -> if c = '\t' then ' ' else c) s))
 
@@ -470,8 +471,23 @@ let rec run toks =
      | _ ->
        (* defined behaviour (same forest): the edge changes; not modelled *)
        Hashtbl.remove edges e; Hashtbl.remove evtabs e; raise Unsupported)
-  | "applyinto" :: x :: _ ->
-    Hashtbl.remove edges x; Hashtbl.remove evtabs x; raise Unsupported
+  | "applyinto" :: x :: op :: a :: b :: _ ->
+    (* the result goes into the existing edge x; when the operation is rejected, x keeps
+       the function it held (C16) *)
+    (match forest_of_edge x with
+     | Some fn when edge_attached x && Hashtbl.mem fors fn ->
+       let old_e = Hashtbl.find_opt edges x and old_ev = Hashtbl.find_opt evtabs x in
+       mute := true;
+       (try run ["apply"; x; fn; op; a; b]; mute := false
+        with
+        | Err c ->
+          mute := false;
+          (match old_e with Some v -> Hashtbl.replace edges x v | None -> Hashtbl.remove edges x);
+          (match old_ev with Some v -> Hashtbl.replace evtabs x v | None -> Hashtbl.remove evtabs x);
+          raise (Err c)
+        | ex -> mute := false; Hashtbl.remove edges x; Hashtbl.remove evtabs x; raise ex);
+       emit "applyinto ok"
+     | _ -> Hashtbl.remove edges x; Hashtbl.remove evtabs x; raise Unsupported)
   | "forest" :: fnm :: d :: sr :: rg :: lb :: rl :: _ ->
     let f = { fdom = d; rel = (sr = "rel");
               range = (match rg with "bool" -> RBool | "int" -> RInt | _ -> RReal);
